@@ -2,13 +2,13 @@
 from .C02 import e2_jobs, META as _M
 
 META = dict(_M)
-CLASSES = ["contracts.C12_all:SquaredError", "contracts.C12_all:RelativeEntropy", "contracts.C12_all:EntropyHelpers"]
+CLASSES = ["contracts.C12_all:SquaredError", "contracts.C12_all:RelativeEntropy", "contracts.C12_all:EntropyHelpers", "contracts.C12_all:NonAffineModel"]
 
 
 def jobs(tier, seed):
     return e2_jobs("C12", CLASSES, tier, seed)
 
 CLAIM = {'engine': 'E2-symtwin', 'level': 'proof',
- 'text': 'The loss classes are configured through their public path with an arbitrary SYMBOLIC affine model (A, b), symbolic data, weights and variable point; gradient = d value / d var and Hessian = d gradient / d var are proved by symbolic differentiation of the executed code\'s own result (chain rule through log), value = the defining formula (weighted squared distance / weighted relative entropy), fast = generic for value and gradient, and every accepted weighting mode (identity, custom, inverse sample / unbiased covariance) is proved to reach the value with the specified weights, for 2..3 outcomes (up to 5 thorough).',
+ 'text': 'The loss classes are configured through their public path with an arbitrary SYMBOLIC affine model (A, b), symbolic data, weights and variable point; gradient = d value / d var and Hessian = d gradient / d var are proved by symbolic differentiation of the executed code\'s own result (chain rule through log), value = the defining formula (weighted squared distance / weighted relative entropy), fast = generic for value and gradient, and every accepted weighting mode (identity, custom, inverse sample / unbiased covariance) is proved to reach the value with the specified weights, for 2..3 outcomes (up to 5 thorough); empirical distributions with exactly-zero entries are separate configurations (0 log 0 = 0); the generic classes are additionally run on a symbolic QUADRATIC model given through user-supplied probability / gradient / Hessian functions, so that the curvature term of the Hessian is exercised.',
  'note': 'all-inputs@config, away from the documented clipping thresholds (stated as requires). The single-fraction normal form limits relative-entropy configurations to 1-2 variables. inv of small symbolic matrices is the exact adjugate formula in the model. The loss classes assume equal outcome counts per schedule (size_prob_dist = rows / schedules): mixed outcome counts are outside their domain and not checked here. Floats as reals (a float-rounding defect in the inverse-covariance weights was found by the native conformance run and fixed).',
  'technique': 'contract-based deductive verification (symbolic execution of the real source -> VCs, exact normaliser + symbolic differentiation)'}
